@@ -185,6 +185,19 @@ pub fn run(tier: &str, seed: u64, out: &mut Out) {
         }
     }
 
+    // hundreds of datums of one kind, and runs of failing datums, through the iterators on one parser
+    for t in crate::gentext::wide_sequences() {
+        for (src, mode) in [(Src::Slice, 'v'), (Src::Io, 'd')] {
+            let cap = 700;
+            let case = format!("iter {} {} {} {} {}", src.name(), Ro::DEFAULT.code(), mode, cap, bytes_code(t.as_bytes()));
+            out.oracle_checks += 1;
+            match iterate(src, Ro::DEFAULT, t.as_bytes(), mode, cap) {
+                Ok(items) => { out.count("wide-sequence:iterated"); out.case(case, items.join(" ;; "), true) }
+                Err(p) => out.fail("panic", format!("iterating over a wide sequence panicked: {}", p), case, json!({})),
+            }
+        }
+    }
+
     // pathological shapes in a child process with a 2 MiB stack
     let deep_n = if tier == "quick" { 200_000 } else { 1_000_000 };
     let exe = std::env::current_exe().unwrap();
